@@ -43,7 +43,7 @@ def run_oracle(datas, want_value):
         return [r for rs in ex.map(_oracle_batch, batches) for r in rs]
 
 
-def main(tier, seed, pid=PID, want_value=WANT_VALUE, extra=None):
+def main(tier, seed, pid=PID, want_value=WANT_VALUE, extra=None, build_targets=("proofs/SimProofs.vo",)):
     chk = Check(pid, tier, seed)
     chk.rule = ("programs: bounded-exhaustive typed enumeration over a 34-opcode alphabet (quick <=3 opcodes + STOP, "
                 "thorough <=5), random typed programs (<=40 opcodes, 25-global labelled vocabulary, every "
@@ -52,7 +52,7 @@ def main(tier, seed, pid=PID, want_value=WANT_VALUE, extra=None):
                 "decompiled module body and reference-VM value+event log, real vs model; (b) the property itself on "
                 "the real implementation: events of exec(unparse(ast)) under inert stand-ins vs the instrumented "
                 "pure-Python unpickler. distinct = distinct byte strings; non-trivial = the reference VM logs >=1 event")
-    built = chk.regen_and_build(["proofs/SimProofs.vo"])
+    built = chk.regen_and_build(list(build_targets))
     if built:
         chk.prove()
     corpus = vmcheck.build_corpus(chk, tier, pid.lower() + ".jsonl")
